@@ -623,3 +623,10 @@ Definition effective (inplace : bool) (k : regkind) (h : list regop) (s : N) : l
 Definition last_wins (t : text) (b : bool) (op : regop) : bool := if text_eqb t (op_tag op) then op_add op else b.
 Definition currently_registered (k : regkind) (h : list regop) (t : text) : bool :=
   fold_left (last_wins t) (of_kind k h) false.
+
+(* does a serializer's own dict_to_class override (serpent: the tag "float", its NaN encoding) take this tag?
+   If so the base class — and with it the registry — is never consulted for it. *)
+Definition special_hit (special : option (text * text)) (tag : val) : bool :=
+  match special with Some (ftag, _) => key_is ftag tag | None => false end.
+Definition node_tag (tagkey : text) (keys vals : list val) : val :=
+  match lookup tagkey keys vals with Some t => t | None => VStr (txt "<unknown>") end.
